@@ -436,13 +436,16 @@ func H03f_publish_setters() {
 	p.Flags = p.Flags&0x08 | q<<1 | vrtB2b(r, 1)
 	if q == 0 {
 		p.ID = 0
-	} else if raised || vrtBool("renumber") {
+	} else if !raised && vrtBool("renumber") {
 		// a decoded message sent on under a new identifier (bridging, re-publishing from a callback)
 		nid := vrtUint16("newid")
 		vrtAssume(nid != 0)
 		m.SetPacketID(nid)
 		p.ID = nid
 		vrtAssert("C03.setters_packet_id", m.PacketID() == nid)
+	}
+	if raised {
+		p.ID = 1 // (placeholder of the right size; the identifier is assigned when the message is encoded)
 	}
 	want := specEncode(&p)
 	vrtAssert("C03.setters_len", m.Len() == len(want))
@@ -451,6 +454,11 @@ func H03f_publish_setters() {
 	vrtAssert("C03.setters_encode_ok", err == nil)
 	if err != nil {
 		return
+	}
+	if raised {
+		vrtAssert("C03.auto_id_nonzero", m.PacketID() != 0)
+		p.ID = m.PacketID()
+		want = specEncode(&p)
 	}
 	vrtAssert("C03.setters_bytes", vrtBytesEq(out[:n2], want))
 	vrtReach("C03.setters")
